@@ -172,7 +172,10 @@ class Report:
 
     def finish(self, max_print=20) -> int:
         for sig in sorted(self.known_hit):
-            print(f"KNOWN-FINDING: property={self.prop} {self.known[sig]} (met {self.known_hit[sig]}x)")
+            text = self.known[sig]
+            if text.startswith("property="):
+                text = text.split(" ", 1)[1] if " " in text else ""
+            print(f"KNOWN-FINDING: property={self.prop} {text} (met {self.known_hit[sig]}x)")
         seen = set()
         n = 0
         for sig, payload, seed, run in self.new:
